@@ -2,6 +2,7 @@ package checks
 
 import (
 	"fmt"
+	"strings"
 
 	"github.com/gogpu/naga"
 	"github.com/gogpu/naga/spirv"
@@ -141,8 +142,55 @@ func C02(c *run.Ctx) int {
 		}
 		return id, o
 	})
+	// many small function signatures over many types: type-id lists such as (3,4) / (34) or (3,14) / (31,4) occur, which
+	// is what a function-type cache keyed on an ambiguous rendering of the list confuses
+	nSig := c.N(150, 2500)
+	c.Each(nSig, func(i int) (string, run.Outcome) {
+		r := run.NewRng(run.CaseSeed(c.Seed, "c02-signatures", i))
+		id := fmt.Sprintf("signatures-%d", i)
+		var sb strings.Builder
+		pool := []string{"u32", "i32", "f32", "bool"}
+		for _, sc := range []string{"f32", "u32", "i32"} {
+			for n := 2; n <= 4; n++ {
+				pool = append(pool, fmt.Sprintf("vec%d<%s>", n, sc))
+			}
+		}
+		for n := 2; n <= 2+r.Intn(8); n++ {
+			pool = append(pool, fmt.Sprintf("array<u32, %d>", n), fmt.Sprintf("array<f32, %d>", n))
+		}
+		ns := r.Range(1, 6)
+		for k := 0; k < ns; k++ {
+			fmt.Fprintf(&sb, "struct S%d { a: u32, b: %s, }\n", k, pool[r.Intn(13)])
+			pool = append(pool, fmt.Sprintf("S%d", k))
+		}
+		// a random prefix of private variables moves the type ids around
+		for k, np := 0, r.Intn(12); k < np; k++ {
+			fmt.Fprintf(&sb, "var<private> pv%d: %s;\n", k, pool[r.Intn(len(pool))])
+		}
+		sb.WriteString("@group(0) @binding(0) var<storage, read_write> o: array<f32, 32>;\n")
+		nf := r.Range(6, 14)
+		var calls []string
+		for k := 0; k < nf; k++ {
+			np := r.Range(1, 3)
+			var ps, as []string
+			for j := 0; j < np; j++ {
+				t := pool[r.Intn(len(pool))]
+				ps = append(ps, fmt.Sprintf("p%d: %s", j, t))
+				as = append(as, t+"()")
+			}
+			ret := []string{"f32", "u32", "i32"}[r.Intn(3)]
+			fmt.Fprintf(&sb, "fn h%d(%s) -> %s { return %s(%d); }\n", k, strings.Join(ps, ", "), ret, ret, k+1)
+			calls = append(calls, fmt.Sprintf("o[%d] = f32(h%d(%s));", k, k, strings.Join(as, ", ")))
+		}
+		fmt.Fprintf(&sb, "@compute @workgroup_size(1) fn main() {\n    %s\n}\n", strings.Join(calls, "\n    "))
+		o := c02Eval(sb.String(), opts[:min(3, len(opts))], map[string]int{"template:signatures": 1, fmt.Sprintf("signatures:%d-functions-%d-types", nf, len(pool)): 1}, false)
+		if o.V == run.Violated {
+			o.Reason = id + ": " + o.Reason
+		}
+		return id, o
+	})
 	return c.Finish("generated compute modules plus naga's 172-shader corpus, each compiled to SPIR-V under every option set (versions 1.0-1.6 x debug x loop bounding x ForcePointSize x AdjustCoordinateSpace x bounds-check policies) and checked by an independent structural validator (73 rule ids: header, layout, ids/dominance, types, per-opcode typing, structured control flow, Vulkan decorations, entry-point interfaces, capabilities/extensions); "+
-		"plus templates moving whole arrays / structs between workgroup memory and every other source (storage, uniform, private, function, let, constructor) under every option set; "+
+		"plus modules of 6-14 small helper signatures over 20-40 types behind a random prefix of private variables (type-id lists that render ambiguously); plus templates moving whole arrays / structs between workgroup memory and every other source (storage, uniform, private, function, let, constructor) under every option set; "+
 		"counters rule:<id> give the number of non-vacuous evaluations of each rule; distinct = distinct (feature set | corpus shader); non-trivial = at least one module validated",
 		[]string{"the validator implements universal and Vulkan-environment rules as listed in internal/spvval/doc.go; it was calibrated to be silent on the corpus (upstream: 172/172 spirv-val clean) apart from listed known findings"})
 }
